@@ -1070,6 +1070,14 @@ def mon_C17(script, outs):
         # (adsr 'extreme' keeps a legal sample rate: times and sustain of any value are in range)
         if script.meta.get("module") != "adsr":
             return fails
+    if script.ops[0].startswith("ribbon.new"):
+        t = script.ops[0].split()
+        fs = unhx(t[2])
+        if isnan(fs) or not (100.0 <= fs <= 192000.0):
+            return fails
+        fsu = int(fs)
+        if int(t[1]) != fsu * 15000 // 1000000 + fsu * 2000 // 1000000 + 1:
+            return fails    # buffer not sized by sample_rate_to_capacity: outside the quantifier
     for i, o in enumerate(outs):
         if o == "PANIC":
             fails.append((i, "panic in `%s`" % script.ops[i]))
